@@ -140,6 +140,7 @@ class SymRepo(G.Repository):
         self.rejected = {}       # ref name -> z3 Bool (persistent per job)
         self.refused = []        # refs whose update the server refused on this path
         self.conflicts_taken = 0
+        self.merge_decisions = []    # per non-trivial merge, in order: did it conflict on this path?
         self.conflict_queries = []   # content-keyed mode: (dst, head1, head2, conflicted?) per merge
         self.no_conflicts = False   # harness assumption: merges never conflict
         self.merge_mask = 0      # fresh atoms created by (conflict-free) merges
@@ -162,6 +163,7 @@ class SymRepo(G.Repository):
         self.fetch_fault = None   # True / z3 Bool: the next refresh of the mirror cache fails
         self.push_count = 0
         self.fail_push_at = None  # index (1-based, over the whole run) of a push command that fails once
+        self.fail_push_from = None  # every push command from that index on fails (server down / refusing everything)
         self.race_ref = None      # a branch somebody pushes to during the next clone
         self.raced = []
         self.content_keyed = False
@@ -337,6 +339,7 @@ class SymRepo(G.Repository):
                     v.prefs_ok = r2 == 'sat'
                     v.op_index = op['n']
                     v.conflicts = self.conflicts_taken
+                    v.merge_decisions = list(self.merge_decisions)
                     v.differs = self.differs_taken
                     v.world = self.concretize(m)
                     self.violations.append(v)
@@ -665,11 +668,16 @@ class SymRepo(G.Repository):
             raise HarnessError('merge of more than two heads')
         if self.content_keyed:
             keep = z3.BitVecVal(((1 << self.W) - 1) & ~self.merge_mask, self.W)
-            cf = self.conflictF(z3.simplify(D & keep), z3.simplify(c1 & keep), z3.simplify(c2 & keep))
+            kd, k1, k2 = z3.simplify(D & keep), z3.simplify(c1 & keep), z3.simplify(c2 & keep)
+            cf = self.conflictF(kd, k1, k2)
+            # heads that bring no content the destination does not already have (they differ from it by
+            # conflict-free merge commits only) cannot conflict
+            self.ctx.assume(z3.Implies(((k1 | k2) & ~kd) == 0, z3.Not(cf)))
         else:
             cf = self.conflictF(D, c1, c2)
         if not self.no_conflicts:
             took = self.ctx.decide(cf)
+            self.merge_decisions.append(bool(took))
             if self.content_keyed:
                 self.conflict_queries.append((cf.arg(0), cf.arg(1), cf.arg(2), took))
             if took:
@@ -701,6 +709,8 @@ class SymRepo(G.Repository):
         self.push_count += 1
         if self.fail_push_at is not None and self.push_count == self.fail_push_at:
             # a transient failure of this one push command (network, server hiccup): nothing is updated
+            raise CommandError('fatal: the remote end hung up unexpectedly')
+        if self.fail_push_from is not None and self.push_count >= self.fail_push_from:
             raise CommandError('fatal: the remote end hung up unexpectedly')
         force = '--force' in flags
         if '--all' in flags:
